@@ -1,6 +1,6 @@
 (* Entry points of the codec model for the correspondence check. *)
 From FF Require Import model.Bytes model.Show model.Msgp model.Forward model.Render model.Spec model.ChunkId.
-From FF Require Import model.ForwardFast.
+From FF Require Import model.ForwardFast model.Pool model.Helpers.
 From Coq Require Import String.
 Open Scope N_scope.
 
@@ -152,6 +152,23 @@ Definition judge_ack_success (wire resp : bytes) : bytes :=
   | _ => str "bad:wire-not-a-message"
   end.
 
+(* a Send* helper of the client (model/Helpers.v): kind, clock reading, tag, payload (record / entries
+   descriptor or raw bytes), and -- for the compressed helpers -- the compressed stream the real gzip produced
+   (gzip is a parameter of the model) *)
+Definition run_helper (kind sec nsec tag payload gzout : bytes) : bytes :=
+  let now := (read_Z sec, read_N nsec) in
+  let gz := fun _ : bytes => unhex gzout in
+  let t := unhex tag in
+  let h := if is kind "message" then Some (HSendMessage t (desc_gval payload))
+           else if is kind "message_ext" then Some (HSendMessageExt t (desc_gval payload))
+           else if is kind "forward" then Some (HSendForward t (desc_entries payload))
+           else if is kind "packed" then Some (HSendPacked t (desc_entries payload))
+           else if is kind "packed_bytes" then Some (HSendPackedFromBytes t (unhex payload))
+           else if is kind "compressed" then Some (HSendCompressed t (desc_entries payload))
+           else if is kind "compressed_bytes" then Some (HSendCompressedFromBytes t (unhex payload))
+           else None in
+  match h with Some h => show_bytes_res (helper_wire gz now h) | None => str "unknown-helper" end.
+
 Definition run_codec (e : bytes) (args : list bytes) : option bytes :=
   match args with
   | [tag; ts; rec; opt] =>
@@ -168,6 +185,7 @@ Definition run_codec (e : bytes) (args : list bytes) : option bytes :=
         Some (enc_check (U_message Slice zero_message) M_message show_message (norm_message (mk_message tag sec nsec rec)) (unhex opt))
       else None
   | [tag; sec; nsec; rec; opt; impl] =>
+      if is e "H_wire" then Some (run_helper tag sec nsec rec opt impl) else   (* kind sec nsec tag payload gzout *)
       if is e "Mchk_message_ext" then
         Some (enc_check (U_message_ext Slice zero_message_ext) M_message_ext show_message_ext
                         (norm_message_ext (mk_message_ext tag sec nsec rec opt)) (unhex impl))
